@@ -13,9 +13,9 @@ def to_ir(self: Expression) -> ir.Expression:
 
 @to_ir.register(Integer)
 def to_ir_integer(self: Integer):
-    # This is sensible as long as we only support floating point values and don't support division. If either of those
-    # ceases to be true, this will need to be updated.
-    return ir.IntegerLiteral(self.value)
+    # Tensor values are doubles, so an integer literal in an expression denotes a double. Emitting it as a 32-bit
+    # integer literal wraps large literals and evaluates literal-only subexpressions in int32.
+    return ir.FloatLiteral(float(self.value))
 
 
 @to_ir.register(Float)
